@@ -357,8 +357,8 @@ func (c *Ctx) checkSnapshotReads(rule string) {
 	fVals := c.field("", "timerValues", "values")
 	if fn := c.fn("", "timer", "snapshot"); fn != nil {
 		ok := false
-		if rets := returnsOf(fn); len(rets) == 1 {
-			if mk, isMk := canon(rets[0].Results[0]).(*ssa.MakeSlice); isMk {
+		if rets := returnsOf(fn); len(rets) == 1 && len(resultValues(rets[0], 0)) == 1 {
+			if mk, isMk := canon(resultValues(rets[0], 0)[0].Val).(*ssa.MakeSlice); isMk {
 				lenOK := false
 				if ln, isLn := stripConv(mk.Len).(*ssa.Call); isLn && isBuiltin(ln, "len") {
 					if f, _ := loadedField(ln.Call.Args[0]); f == fVals {
